@@ -26,7 +26,8 @@
 #define MAXN 72
 #define MAXOUT 3
 #define MAXMSG 1024
-#define FINDING_ID "C13-chain-relay-missing-output"
+/* ids of the known_findings.json entries that make lost pairs attributable, per topology (star: none) */
+static const char *finding_id[3] = { "", "C13-chain-relay-missing-output", "C13-binomial-relay-missing-output" };
 
 typedef unsigned __int128 set_t;                 /* set of ranks (bit r = rank r), N <= 72 */
 #define BIT(r) (((set_t)1) << (r))
@@ -114,7 +115,8 @@ static void h_iterate(parsec_execution_stream_t *es, const parsec_task_t *task, 
 static char o_outdir[512] = "/verif/out";
 static FILE *o_json; static int o_json_first = 1;
 static double o_deadline; static const char *o_replay;
-static int o_known_entry;                              /* known_findings.json contains FINDING_ID */
+static int o_known_topos;                              /* bit t set: known_findings.json contains finding_id[t] */
+#define o_known_entry ((o_known_topos >> c_topo) & 1)
 static int o_verbose;
 static int total_violations, total_broken;
 static double now_s(void) { struct timespec ts; clock_gettime(CLOCK_MONOTONIC, &ts); return ts.tv_sec + ts.tv_nsec * 1e-9; }
@@ -248,9 +250,9 @@ static void run_case(verdict_t *v)
             if (want && recv[r][k] > 1) { v->dup++; if (!v->why[0]) snprintf(v->why, sizeof(v->why), "rank %d receives output %d %d times", r, k, recv[r][k]); }
             if (want && recv[r][k] == 0) {
                 v->lost++;
-                /* attribution to FINDING_ID: chain topology, several outputs, r was activated, and every activation of r came
+                /* attribution to finding_id[topology]: a relaying topology, several outputs, r was activated, and every activation of r came
                  * from a relay q != root that does not itself consume k (q not in S_k) */
-                int attr = (c_topo == 1 && c_nout > 1 && nact[r] > 0);
+                int attr = (c_topo != 0 && c_nout > 1 && nact[r] > 0);
                 for (int q = 0; attr && q < c_N; q++) if (HAS(actby[r], q) && (q == c_root || HAS(c_S[k], q))) attr = 0;
                 if (attr) v->lost_attr++;
                 else if (!v->why[0] || v->lost == 1) snprintf(v->why, sizeof(v->why), "rank %d never receives output %d (%s)", r, k,
@@ -372,9 +374,9 @@ static int run_scenario(int topo, int nout, int N, int var, int maxsz)
                     if (!firstknown[0]) { char cs[400]; case_str(cs, sizeof(cs)); snprintf(firstknown, sizeof(firstknown), "%s: %s", cs, v.why); }
                 } else {
                     viol++; total_violations++;
-                    if (viol <= 3) {
+                    if (total_violations <= 3) {       /* replay files for the first three; the rest are counted */
                         char cs[400], path[800], m[1100]; case_str(cs, sizeof(cs));
-                        snprintf(m, sizeof(m), "%s%s", v.why, v.attributed ? " [would match " FINDING_ID " but known_findings.json has no such entry]" : "");
+                        snprintf(m, sizeof(m), "%s%s%s%s", v.why, v.attributed ? " [would match " : "", v.attributed ? finding_id[c_topo] : "", v.attributed ? " but known_findings.json has no such entry]" : "");
                         write_replay(path, sizeof(path), scen, m);
                         printf("VIOLATION property=%s replay=%s\n", PROPERTY, path);
                         printf("  %s: %s\n", cs, m); fflush(stdout);
@@ -388,9 +390,13 @@ static int run_scenario(int topo, int nout, int N, int var, int maxsz)
     }
     free(fam);
     if (attributed) {
-        printf("KNOWN-FINDING: property=%s id=%s topology=%s N=%d outputs=%d%s: %ld of %ld cases lose deliveries, every lost (rank, output) pair attributable (%ld pairs); first: %s\n",
-               PROPERTY, FINDING_ID, topo_name(topo), N, nout, var ? " (variant)" : "", attributed, cases, lost_attr, firstknown);
-        fflush(stdout);
+        static unsigned char printed[MAXOUT + 1][MAXN + 1];      /* one line per (topology, N, number of outputs) class */
+        if (!printed[nout][N]) {
+            printed[nout][N] = 1;
+            printf("KNOWN-FINDING: property=%s id=%s topology=%s N=%d outputs=%d: %ld of %ld cases lose deliveries, all %ld lost (rank,output) pairs attributable; e.g. %s\n",
+                   PROPERTY, finding_id[topo], topo_name(topo), N, nout, attributed, cases, lost_attr, firstknown);
+            fflush(stdout);
+        }
         if (nsamples < 4) snprintf(samples[nsamples++], sizeof(samples[0]), "known finding: %s", firstknown);
     }
     double wall = now_s() - t0;
@@ -430,19 +436,19 @@ static int do_replay(const char *path)
     verdict_t v; run_case(&v);
     printf("  messages=%d (by relays %d) lost=%d (attributable %d) duplicate=%d outside=%d never-activated=%d\n", v.nmsg, v.relay_msgs, v.lost, v.lost_attr, v.dup, v.outside, v.silent);
     if (!v.failing) { printf("replay: the case passes\n"); return 0; }
-    if (v.attributed && o_known_entry) { printf("KNOWN-FINDING: property=%s id=%s %s: %s\n", PROPERTY, FINDING_ID, cs, v.why); return 0; }
+    if (v.attributed && o_known_entry) { printf("KNOWN-FINDING: property=%s id=%s %s: %s\n", PROPERTY, finding_id[c_topo], cs, v.why); return 0; }
     printf("VIOLATION property=%s replay=%s\n  %s: %s\n", PROPERTY, path, cs, v.why);
     return 1;
 }
 
-/* usage: coll_h --topo T --plan "nout:Nmin-Nmax[:variant[:maxsetsize]],..." --known 0|1 [--json f] [--outdir d] [--deadline s] | --replay f --known 0|1 */
+/* usage: coll_h --topo T --plan "nout:Nmin-Nmax[:variant[:maxsetsize]],..." --known-topos MASK [--json f] [--outdir d] [--deadline s] | --replay f --known-topos MASK */
 int main(int argc, char **argv)
 {
     int topo = 1; const char *plan = "1:2-4", *json = NULL; double dl = 0;
     for (int i = 1; i < argc; i++) {
         if (!strcmp(argv[i], "--topo") && i + 1 < argc) topo = atoi(argv[++i]);
         else if (!strcmp(argv[i], "--plan") && i + 1 < argc) plan = argv[++i];
-        else if (!strcmp(argv[i], "--known") && i + 1 < argc) o_known_entry = atoi(argv[++i]);
+        else if (!strcmp(argv[i], "--known-topos") && i + 1 < argc) o_known_topos = atoi(argv[++i]) & 6;
         else if (!strcmp(argv[i], "--json") && i + 1 < argc) json = argv[++i];
         else if (!strcmp(argv[i], "--outdir") && i + 1 < argc) snprintf(o_outdir, sizeof(o_outdir), "%s", argv[++i]);
         else if (!strcmp(argv[i], "--deadline") && i + 1 < argc) dl = atof(argv[++i]);
